@@ -22,7 +22,7 @@ theorem isProperList_cons (a d : Val) : isProperList (.cons a d) = isProperList 
   simp [isProperList, listToVec]
 
 /-- functions and traps are equal to nothing -/
-theorem equalInternal_fn (k : Kind) (r : Bool) (p b e : Val) (m : Name) (x : Val) :
+theorem equalInternal_fn (k : Kind) (r p b e : Val) (m : Name) (x : Val) :
     equalInternal (.fn k r p b e m) x = false := by
   simp [equalInternal]
 
